@@ -139,7 +139,7 @@ CLAIMED = {
     ),
     "C17": dict(
         category="exploration",
-        text="Exhaustive walk of every (security parameter <= 40, step <= 40, tip <= 200) triple for both entity kinds plus 60k generated (tip, tip+delta, k, step, epoch) cases at the numeric boundaries (0, 1, block-range length +-1, 2^32+-1, 2^62, u64::MAX tips); each clause of the statement (margin, monotone, whole steps, complete block range, purity across independently built / JSON round-tripped configs) is an executable oracle. Arithmetic on a three-parameter integer function is exactly where a small exhaustive box plus boundary sampling is decisive.",
+        text="Exhaustive walk of every (security parameter <= 40, step <= 40, tip <= 200) triple for both entity kinds plus 60k generated (tip, tip+delta, k, step, epoch) cases at the numeric boundaries (0, 1, block-range length +-1, 2^32+-1, 2^62, u64::MAX tips); each clause of the statement (margin, monotone, whole steps, complete block range, purity across independently built / JSON round-tripped configs, and the beacon of one entity type being the same whatever the other transactions-like type is configured with: other parameters or absent) is an executable oracle. Arithmetic on a three-parameter integer function is exactly where a small exhaustive box plus boundary sampling is decisive.",
         note="Assumes configuration values < 2^63 and epochs < 2^62 (operator configuration / realistic chain data). Trusted base: the harness's u128 re-statement of the clauses.",
         technique="property-based testing: exhaustive small box + proptest boundary generators against an arithmetic oracle",
         design_ref="DESIGN.md §2 C17",
@@ -163,8 +163,8 @@ CLAIMED = {
     ),
     "C20": dict(
         category="exploration",
-        text="The real signer (state machine, runner, certifier with the production delayer/retrier/http publisher chain, single signer, epoch service, sqlite stores on disk, upkeep, KES keys from the repository fixture) talks through the real AggregatorHttpClient to a harness-owned loopback axum aggregator that records every register-signer / register-signatures request with the chain epoch at receipt, is scripted per op (down for n requests, stale epoch settings, round closed, publish failures) and never calls the offset helpers under test (offsets hard-coded from the protocol description). 24 canonical + about 600 generated histories per quick run (3-6 epochs, <=40 ops: ticks, epoch changes, chain progress, faults, others registering subsets, restarts on the same stores; stakes and parameters change every epoch so a wrong offset changes keys) with a healing epilogue. Oracle: at most one acknowledged publication per (entity, beacon); every signature verifies under the harness-derived signer set / stakes / parameters of the registrations acknowledged in E-2 with the key registered then, and its message seed equals the harness derivation; no signature before eligibility; bounded progress of signing (after restart and in every undisturbed window) and of registration (healthy aggregator => a registration acknowledged in the epoch within the cycles needed + 2). 14 of 15 mutants caught (the 15th is equivalent in the domain); 2 of 3 seeded changes caught (the third needs the aggregator ahead of the signer's node, outside the generated domain - see SENSITIVITY.md).",
-        note="Trusted: mithril-stm/mithril-common crypto and key registration, the repository's chain/immutable/scanner/digester doubles, entity-specific message parts, phi_f = 1 (signer keys come from OsRng). Crashes happen only between cycles; faults mean 'request not processed' (no lost acknowledgements); progress clauses assume acknowledged registrations in E-2 and E-1.",
+        text="The real signer (state machine, runner, certifier with the production delayer/retrier/http publisher chain, single signer, epoch service, sqlite stores on disk, upkeep, KES keys from the repository fixture) talks through the real AggregatorHttpClient to a harness-owned loopback axum aggregator that records every register-signer / register-signatures request with the chain epoch at receipt, is scripted per op (down for n requests, stale epoch settings, round closed, publish failures, and the chain moving to the next epoch while the answer to the signer's next request of a chosen route is in flight, i.e. INSIDE a cycle) and never calls the offset helpers under test (offsets hard-coded from the protocol description). 24 canonical + about 600 generated histories per quick run (3-6 epochs, <=40 ops: ticks, epoch changes, chain progress, faults, others registering subsets, restarts on the same stores; stakes and parameters change every epoch so a wrong offset changes keys) with a healing epilogue. Oracle: at most one acknowledged publication per (entity, beacon); every signature verifies under the harness-derived signer set / stakes / parameters of the registrations acknowledged in E-2 with the key registered then, and its message seed equals the harness derivation; no signature before eligibility; bounded progress of signing (after restart and in every undisturbed window) and of registration (healthy aggregator => a registration acknowledged in the epoch within the cycles needed + 2). Found one genuine defect (repaired: epoch change between the epoch check and the registration transition). 14 of 15 mutants caught (the 15th is equivalent in the domain); seeded changes: see SENSITIVITY.md (one needs the aggregator ahead of the signer's node, outside the generated domain).",
+        note="Trusted: mithril-stm/mithril-common crypto and key registration, the repository's chain/immutable/scanner/digester doubles, entity-specific message parts, phi_f = 1 (signer keys come from OsRng). Crashes happen only between cycles; epoch changes inside a cycle happen right after an aggregator answer; faults mean 'request not processed' (no lost acknowledgements); progress clauses assume acknowledged registrations in E-2 and E-1.",
         technique="stateful property-based testing: generated fault histories on the real signer, scripted recording fake aggregator, model-based oracle with hard-coded protocol offsets (proptest)",
         design_ref="DESIGN.md §2 C20",
         engine="p-signer",
